@@ -17,6 +17,14 @@ CHECKS['C10'] = ('exploration','runtime monitoring: child-process crash monitor 
 CHECKS['C17'] = ('fault_enumeration','runtime monitoring with fault enumeration: every block-boundary straddle, BOM variant and single-byte corruption fed to the real decoders; oracle = unicode/utf8',
   'The real FileStream/ByteStream decoders and LoadFile+Execute are driven over an enumerated fault space (every split offset at three block boundaries, every single-byte corruption of small programs, chunk sizes 1..17) and judged by the standard library decoder; marker programs make a silently truncated execution observable.',
   'Trusts: Go unicode/utf8 as the reference; files larger than 3 blocks sampled only.', '§6 C17')
+REF=('exploration','Generated programs run on the real interpreter in a child process; result, ordered display trace and error class/code are compared with an independent reference evaluator (znref) that implements the manual/property semantics and refuses to judge what they leave open; non-termination is decided by an evaluator tick budget (hook H4). Held on the generated cases (counts in the evidence), not a proof over all programs.',
+     'Trusts: the reference evaluator and renderer in /verif/internal/znref (validated by mutation drills, DESIGN §9); cases marked unspecified are skipped and counted; display compared atom-wise.')
+CHECKS['C01'] = (REF[0],'runtime monitoring: differential execution against an independent reference evaluator over bounded-exhaustive operator x boundary-value pairs, unbraced operator sequences and random expression trees with order probes', REF[1], REF[2], '§6 C01')
+CHECKS['C02'] = (REF[0],'runtime monitoring: differential execution (result + display trace) against the reference evaluator over exhaustive transfer-statement placements and random control-flow programs; logical tick budget for termination', REF[1], REF[2], '§6 C02')
+CHECKS['C06'] = (REF[0],'runtime monitoring: symbol-table history checker against a stack-of-maps model (bounded exhaustive + random), probe-program families and random programs against the reference evaluator, quiescent-point invariant on scope depth / call stack via hooks', REF[1], REF[2]+' Hook H3 exposes scope depth and call-stack length read-only.', '§6 C06')
+CHECKS['C07'] = (REF[0],'runtime monitoring: generated copy/mutation histories with the state of every variable displayed after each step, judged by a reference heap model', REF[1], REF[2], '§6 C07')
+CHECKS['C08'] = (REF[0],'runtime monitoring: differential execution against the reference evaluator over arity x argument-count families with evaluation-order probes, object families, deep recursion and random method/type programs', REF[1], REF[2], '§6 C08')
+CHECKS['C09'] = (REF[0],'runtime monitoring: differential execution against the reference evaluator over raise-kind x call-depth x handler-placement families and random programs, plus quiescent-point invariants (call stack empty, scope depth 0) observed through hooks', REF[1], REF[2], '§6 C09')
 NOT_YET = {}
 
 def main():
